@@ -185,6 +185,7 @@ class Run:
             "wall_s": round(time.time() - self.t0 + self.info.get("extract_s", 0), 3),
             "violations": len(new),
         }
-        os.makedirs(os.path.join(VERIF, "evidence"), exist_ok=True)
-        with open(os.path.join(VERIF, "evidence", self.pid + ".json"), "w") as fh:
+        evdir = os.environ.get("DSA_EVIDENCE_DIR") or os.path.join(VERIF, "evidence")
+        os.makedirs(evdir, exist_ok=True)
+        with open(os.path.join(evdir, self.pid + ".json"), "w") as fh:
             json.dump(ev, fh, indent=1, sort_keys=False)
